@@ -11,3 +11,4 @@ import TempestVerif.Props.C05
 import TempestVerif.Props.C13
 import TempestVerif.Props.C03
 import TempestVerif.Props.C19
+import TempestVerif.Props.C11
